@@ -128,7 +128,7 @@ pub fn property(tier: Tier) -> Property {
             panic_is_violation: true,
             render: |c: &Mixed| c.render(),
             rule: "long mixed histories (up to 20/30 generator chunks = 20-60 operations: insertions, unions, rewrite iterations); after every operation: all pairs ever observed equal still equal, every handle ever returned can be canonicalised / compared / extracted from, slot sets only shrink, progress moves lexicographically as documented; non-trivial = a dead handle is used and a pair recorded >= 5 operations earlier is re-checked; distinct by rendered history",
-            case_timeout_s: tier.pick(120, 600),
+            case_timeout_s: tier.pick(30, 120),
             exhaustive: false,
         }));
     }
